@@ -133,9 +133,12 @@ struct c12_session : public vsim_session {
     for (size_t i = 0; i < L.size(); i++) if (S1[i] != S0[i]) W.push_back(i);
     // control: an item with private state outside the locations (hills, samples, moving centres, extended coordinates)
     // does not repeat itself; its read set cannot be derived by perturbation
-    setall(L, S0);
-    run_item();
-    bool const repeatable = (getall(L) == S1);
+    bool repeatable = true;
+    for (int rep = 0; rep < 3 && repeatable; rep++) {     // (state such as sample counts may change the outcome only after a few updates)
+      setall(L, S0);
+      run_item();
+      repeatable = (getall(L) == S1);
+    }
     std::vector<size_t> R, Wsame;
     for (size_t j = 0; repeatable && j < L.size(); j++) {
       if (S0[j].empty()) continue;
